@@ -261,3 +261,25 @@ package engine
 //@ props C05
 //@ at call pool.Run assert [under-the-engine-context] arg(ctx) == ctx
 //@ at send runRes assert [its-outcome-with-its-id] value.Err == result_of(pool.Run, 0) && value.ID == pool.ID
+
+// ---------------------------------------------------------------- pool configuration: every part is required; documented key names
+//@ struct Config
+//@ props C17
+//@ tag Pools validate required
+//@ tag Pools validate dive
+//@ tag Pools config pools
+
+//@ struct InstancePoolConfig
+//@ props C17 C04
+//@ tag Provider validate required
+//@ tag Provider config ammo
+//@ tag Aggregator validate required
+//@ tag Aggregator config result
+//@ tag NewGun validate required
+//@ tag NewGun config gun
+//@ tag NewRPSSchedule validate required
+//@ tag NewRPSSchedule config rps
+//@ tag StartupSchedule validate required
+//@ tag StartupSchedule config startup
+//@ tag RPSPerInstance config rps-per-instance
+//@ tag DiscardOverflow config discard_overflow
